@@ -160,8 +160,8 @@ def body(ctx, case):
     Tc = ctx.real("Tc", 0, 180)
     dsh = ctx.real("dsh", 0, 20)
     dsc = ctx.real("dsc", 0, 20)
-    eta = ctx.real("eta", 1.0 / 4, 1)
-    Q = ctx.real("Q", 1, 1e4)
+    eta = ctx.const(float(case.get("eta", 0.75)))      # concrete: h_out = h_in + (h_is - h_in)/eta stays linear in the state functions
+    Q = ctx.const(float(case.get("Q", 1000.0)))
     ctx.assume(Tc - Te >= 1)
     ctx.assume(Tc - dsc >= Te + dsh + 1.0 / 4)     # condenser outlet stays above the evaporator outlet temperature
     lift_ok = Tc - Te - dsc - dsh >= 5
@@ -221,13 +221,15 @@ def body(ctx, case):
 
 
 def cases(tier, seed):
-    return [{"fluid": "water"}] if tier == "quick" else [{"fluid": "water"}, {"fluid": "ammonia"}]
+    if tier == "quick":
+        return [{"fluid": "water", "eta": 0.75, "Q": 1000.0}, {"fluid": "water", "eta": 1.0, "Q": 250.0}]
+    return [{"fluid": f, "eta": e, "Q": q} for f in ("water", "ammonia") for e, q in ((0.5, 1000.0), (0.75, 40.0), (1.0, 250.0))]
 
 
 FAMILIES = [
     Family(name="cycle", cases=cases, body=body, functions=FUNCS, files=FILES,
-           bounds="evaporating temperature in [-20,80] C, condensing in [0,180] C with lift >= 1 K, superheat and subcooling in [0,20] K, compressor efficiency in [1/4,1], duty in [1,1e4] "
-                  "as z3 reals; ihx_gas_dt = 0; request order of the stream sets (condenser first / evaporator first / both at once) a solver choice",
+           bounds="evaporating temperature in [-20,80] C, condensing in [0,180] C with lift >= 1 K, superheat and subcooling in [0,20] K, compressor efficiency concrete in {0.5, 0.75, 1} and duty concrete (the cycle is linear in the duty) "
+                  "-- temperatures, superheat and subcooling z3 reals; ihx_gas_dt = 0; request order of the stream sets (condenser first / evaporator first / both at once) a solver choice",
            assumptions=["CoolProp AbstractState replaced by uninterpreted state functions under the contract: " + "; ".join(CONTRACT),
                         "sub-critical cycles only (critical point moved out of range)", "replay on the real library with water (thorough: also ammonia) at the model's temperatures"],
            shim_modules=["OpenPinch.classes.simple_heat_pump", "OpenPinch.classes.stream", "OpenPinch.classes.stream_collection"],
